@@ -5,8 +5,8 @@ import (
 	"math"
 
 	"github.com/golang/geo/r2"
-	"github.com/golang/geo/s1"
 	"github.com/golang/geo/r3"
+	"github.com/golang/geo/s1"
 	"github.com/golang/geo/s2"
 	"pgregory.net/rapid"
 
